@@ -288,6 +288,20 @@ fn build(c: &Value) -> Option<Built> {
             ext_v = Value::Object(ext.clone());
             wellformed = false;
         }
+        "path-prefix-sharing" => {
+            // the path's root merely *starts with* the crate's identifier
+            path = format!("{ident}_extras::things::Thing");
+            ext.insert("path".into(), json!(path));
+            ext_v = Value::Object(ext.clone());
+            wellformed = false;
+        }
+        "path-prefix-of-crate" => {
+            // the path's root is a proper prefix of the crate's identifier
+            path = format!("{}::things::Thing", &ident[..ident.len() - 1]);
+            ext.insert("path".into(), json!(path));
+            ext_v = Value::Object(ext.clone());
+            wellformed = false;
+        }
         "path-no-sep" => {
             ext.insert("path".into(), json!("Thing"));
             ext_v = Value::Object(ext.clone());
@@ -422,11 +436,14 @@ impl Property for C13 {
             }
         }
         // malformed extensions: never substituted, always generated
-        for m in ["bad-req", "bad-req-op", "path-other-crate", "path-no-sep", "missing-version", "missing-path", "missing-crate", "version-number", "not-an-object", "parameters-object"] {
+        for m in ["bad-req", "bad-req-op", "path-other-crate", "path-prefix-sharing", "path-prefix-of-crate", "path-no-sep", "missing-version", "missing-path", "missing-crate", "version-number", "not-an-object", "parameters-object"] {
             for cfg in ["absent", "*", "!", "1.2.3"] {
                 for u in unknowns {
                     for s in sites {
-                        out.push(cell("my-crate", "1.2.3", cfg, None, u, 1, s, m, Some(true)));
+                        for r in renames {
+                            out.push(cell("my-crate", "1.2.3", cfg, r, u, 1, s, m, Some(true)));
+                        }
+                        out.push(cell("plain", "1.2.3", cfg, None, u, 0, s, m, Some(true)));
                     }
                 }
             }
@@ -493,7 +510,7 @@ impl Property for C13 {
                 // allowed: the path stands directly for the schema
             }
         } else {
-            if observed.starts_with("::") && observed.contains("::things::Thing") {
+            if observed.starts_with("::") && observed.contains("::Thing") {
                 unit.violations.push(Violation::new("substitution-unexpected", format!("cell {}: the schema must be generated, but the API types the property as {}", cell_v, p.type_ident)));
             }
             if !structure_emitted {
